@@ -80,9 +80,10 @@ pub fn configs(tier: Tier) -> Vec<String> {
     for lock in ["local", "sync", "spin"] {
         for shared in 0..2 {
             for buf in ["array", "fixed", "growing"] {
-                for cap in 0..3 {
+                for cap in [0, 1, 2, 3, 5] {
                     let quick_ok = match (lock, buf) {
-                        ("local", "array") => true,
+                        ("local", "array") => cap != 5,
+                        ("sync", "fixed") => cap == 5 && shared == 0,
                         ("local", "fixed") => cap == 1,
                         ("sync", "growing") => cap != 1,
                         ("sync", "array") => cap == 1 && shared == 1,
@@ -405,8 +406,8 @@ fn make_api<M: RawMutex + 'static, P: Payload>(cfg: &str) -> Box<dyn ChanApi<M, 
     fn s<M: RawMutex + 'static, P: Payload, A: RingBuf<Item = P> + Send + 'static>(cap: usize, growing: bool, heap: bool) -> Box<dyn ChanApi<M, P>> {
         let (t, r) = generic_channel::<M, P, A>(cap);
         let chan = t.verif_channel() as *const _;
-        let mut tx = Vec::with_capacity(4);
-        let mut rx = Vec::with_capacity(4);
+        let mut tx = Vec::with_capacity(8);
+        let mut rx = Vec::with_capacity(8);
         tx.push(t);
         rx.push(r);
         Box::new(SChan { tx, rx, stream: None, chan, cap, growing, heap })
@@ -414,12 +415,16 @@ fn make_api<M: RawMutex + 'static, P: Payload>(cfg: &str) -> Box<dyn ChanApi<M, 
     match (shared, buf, cap) {
         (false, "array", 0) => b::<M, P, ArrayBuf<P, [P; 0]>>(0, false, false),
         (false, "array", 1) => b::<M, P, ArrayBuf<P, [P; 1]>>(1, false, false),
-        (false, "array", _) => b::<M, P, ArrayBuf<P, [P; 2]>>(2, false, false),
+        (false, "array", 2) => b::<M, P, ArrayBuf<P, [P; 2]>>(2, false, false),
+        (false, "array", 3) => b::<M, P, ArrayBuf<P, [P; 3]>>(3, false, false),
+        (false, "array", _) => b::<M, P, ArrayBuf<P, [P; 5]>>(5, false, false),
         (false, "fixed", c) => b::<M, P, FixedHeapBuf<P>>(c, false, c > 0),
         (false, _, c) => b::<M, P, GrowingHeapBuf<P>>(c, true, true),
         (true, "array", 0) => s::<M, P, ArrayBuf<P, [P; 0]>>(0, false, false),
         (true, "array", 1) => s::<M, P, ArrayBuf<P, [P; 1]>>(1, false, false),
-        (true, "array", _) => s::<M, P, ArrayBuf<P, [P; 2]>>(2, false, false),
+        (true, "array", 2) => s::<M, P, ArrayBuf<P, [P; 2]>>(2, false, false),
+        (true, "array", 3) => s::<M, P, ArrayBuf<P, [P; 3]>>(3, false, false),
+        (true, "array", _) => s::<M, P, ArrayBuf<P, [P; 5]>>(5, false, false),
         (true, "fixed", c) => s::<M, P, FixedHeapBuf<P>>(c, false, c > 0),
         (true, _, c) => s::<M, P, GrowingHeapBuf<P>>(c, true, true),
     }
@@ -827,7 +832,7 @@ impl<M: RawMutex + 'static, P: Payload> MpmcCore<M, P> {
             out.push(Ev::new(STREAM_CREATE, 0, 0));
         }
         if self.api().shared() {
-            let lim = if self.bounded { 2 } else { 3 };
+            let lim = if self.bounded { 2 } else { 5 };
             if has_tx && self.api().n_tx() < lim {
                 out.push(Ev::new(CLONE_TX, 0, 0));
             }
